@@ -1175,6 +1175,27 @@ async fn c18_repair_round(seed: u64, r: u64, pre_yield: bool) -> CaseOut {
     for n in &names {
         let _ = ecv::take_add_state_calls(n); // the peer's own creations do not count
     }
+    // in a third of the rounds the peer's answers to the state requests are lost (for some of the names),
+    // held for a while first: the repair of those keyspaces fails after the local first uses were accepted
+    let fail_states = rng.gen_range(0..3) == 0;
+    if fail_states {
+        let hold = rng.gen_range(0..20u64);
+        let lose: u64 = rng.gen();
+        datacake_rpc::verif::set_policy(
+            addr_a,
+            Some(Arc::new(move |m: datacake_rpc::verif::MsgInfo| {
+                Box::pin(async move {
+                    if m.uri.contains("GetState") && (hash_of(&m.body) ^ lose) % 3 != 0 {
+                        tokio::time::sleep(Duration::from_millis(hold)).await;
+                        datacake_rpc::verif::Verdict::DropReply
+                    } else {
+                        datacake_rpc::verif::Verdict::Deliver
+                    }
+                })
+            })),
+        );
+        out.count("repair_rounds_with_failing_state_requests", 1);
+    }
     // B repairs from A while the first local uses of the same names arrive at B
     let repair = {
         let group = b.group.clone();
@@ -1366,7 +1387,7 @@ pub fn c18(args: &Args) {
     let mut report = Report::new(
         args,
         "E1-actor",
-        "k in 2..8 tasks concurrently make the first use of a fresh keyspace name on one real KeyspaceGroup through different entry points (get_or_create_keyspace + Set; ConsistencyService put / multi_put over the in-memory transport; ReplicationService GetState followed by a repair-sourced Set; first uses that are DELETES: consistency remove / multi_remove, the distributor's batch message with a 'removed' half only, Del through the group) and send one mutation each (distinct ids, distinct origins, stamps inside one window so every one applies). A later lookup's serialized set must contain every acknowledged operation and agree with storage. Runtimes: current-thread (the awaits inside add_state yield naturally; task order rotated) and multi-thread with 2/4/16 workers and random pre-yields. Second scenario: node B runs a repair from a peer A that already holds 1..40 keyspace names (the repair path creates them on B) while the first local uses of those same names (group, consistency put / multi_put) arrive at B; every acknowledged operation must be in the state a later lookup serializes, set == store. Third scenario: REAL node start-ups (DatacakeNodeBuilder + store extension = the library's own create(), loopback sockets, real time) on storage that already holds keyspaces and lists them slowly, while a peer retries the first incoming write for a persisted name from the moment the RPC server is up: once acknowledged it must be in the state served to peers after the start-up. A creation counter (hook H6) observes how many states were created per name. Non-trivial = >= 2 states were created for the name (first uses overlapped); distinct = distinct (round, k, entry rotation, creations).",
+        "k in 2..8 tasks concurrently make the first use of a fresh keyspace name on one real KeyspaceGroup through different entry points (get_or_create_keyspace + Set; ConsistencyService put / multi_put over the in-memory transport; ReplicationService GetState followed by a repair-sourced Set; first uses that are DELETES: consistency remove / multi_remove, the distributor's batch message with a 'removed' half only, Del through the group) and send one mutation each (distinct ids, distinct origins, stamps inside one window so every one applies). A later lookup's serialized set must contain every acknowledged operation and agree with storage. Runtimes: current-thread (the awaits inside add_state yield naturally; task order rotated) and multi-thread with 2/4/16 workers and random pre-yields. Second scenario: node B runs a repair from a peer A that already holds 1..40 keyspace names (the repair path creates them on B) while the first local uses of those same names (group, consistency put / multi_put) arrive at B - in a third of the rounds the peer's answers to the state requests are held and then lost, so the repair of those keyspaces fails -; every acknowledged operation must be in the state a later lookup serializes, set == store. Third scenario: REAL node start-ups (DatacakeNodeBuilder + store extension = the library's own create(), loopback sockets, real time) on storage that already holds keyspaces and lists them slowly, while a peer retries the first incoming write for a persisted name from the moment the RPC server is up: once acknowledged it must be in the state served to peers after the start-up. A creation counter (hook H6) observes how many states were created per name. Non-trivial = >= 2 states were created for the name (first uses overlapped); distinct = distinct (round, k, entry rotation, creations).",
     );
     let seed = args.seed;
     let rounds = args.pick(40_000, 1_000_000);
@@ -1455,6 +1476,7 @@ pub fn c18(args: &Args) {
     report.floor("first_uses_during_a_repair", 10_000);
     report.floor("keyspaces_synchronised_by_the_repair", 5_000);
     report.floor("keyspace_states_created_twice_during_repair", 50);
+    report.floor("repair_rounds_with_failing_state_requests", 500);
     report.finish(args);
 }
 
